@@ -237,7 +237,8 @@ def to_xml(spec):
         if key in a:
           at.append('%s="%r"' % (key, a[key]))
       if a.get('ctrlrange') is not None:
-        at.append('ctrllimited="true" ctrlrange="%s"' % _fmt(a['ctrlrange']))
+        at.append('ctrllimited="%s" ctrlrange="%s"' % (
+            a.get('ctrllimited', 'true'), _fmt(a['ctrlrange'])))
       if a.get('forcerange') is not None:
         at.append('forcelimited="true" forcerange="%s"' %
                   _fmt(a['forcerange']))
